@@ -238,11 +238,44 @@ def _abbr(q):
 # ---------------------------------------------------------------------------
 
 class _FakeResp(io.BytesIO):
-    def __init__(self, data, url, ctype):
+    def __init__(self, data, url, ctype, reset_after=None, sim=None):
         super().__init__(data)
         self.url = url
         self.headers = Message()
         self.headers["Content-Type"] = ctype
+        self._reset_after = reset_after      # bytes delivered before the simulated connection reset
+        self._sim = sim
+
+    def _maybe_reset(self):
+        if self._reset_after is not None and self.tell() >= self._reset_after:
+            self._reset_after = None
+            if self._sim is not None:
+                self._sim.faults["url_reset_mid_transfer"] += 1
+                self._sim.log.add("fetch", "fault:reset_mid_transfer", self.url.rsplit("/", 1)[-1])
+            raise ConnectionResetError(errno.ECONNRESET, "simulated connection reset by peer")
+
+    def read(self, n=-1):
+        if self._reset_after is not None:
+            left = self._reset_after - self.tell()
+            if left <= 0:
+                self._maybe_reset()
+            if n is None or n < 0 or n > left:
+                n = left
+        return super().read(n)
+
+    def readline(self, n=-1):
+        self._maybe_reset()
+        return super().readline(n)
+
+    def __iter__(self):
+        return self
+
+    def __next__(self):
+        self._maybe_reset()
+        l = super().readline()
+        if not l:
+            raise StopIteration
+        return l
 
     def info(self):
         return self.headers
@@ -257,6 +290,7 @@ class SimHTTP(object):
         self.docs = {}           # url -> (bytes, content type)
         self.fetches = 0
         self.fail_fetches = {}   # fetch index -> http code
+        self.reset_fetches = {}  # fetch index -> bytes delivered before a connection reset
 
     def serve(self, url, data, ctype):
         self.docs[url] = (data if isinstance(data, bytes) else data.encode("utf-8"), ctype)
@@ -276,6 +310,8 @@ class SimHTTP(object):
             raise HTTPError(url, 404, "not found", Message(), None)
         data, ctype = self.docs[url]
         self.sim.log.add("fetch", "ok", url.rsplit("/", 1)[-1], len(data))
+        if idx in self.reset_fetches:
+            return _FakeResp(data, url, ctype, reset_after=min(len(data) - 1, max(1, self.reset_fetches[idx])), sim=self.sim)
         return _FakeResp(data, url, ctype)
 
 
@@ -368,9 +404,9 @@ class _Reader(object):
             for l in self.real:
                 if fs.read_fault_left == 0:
                     fs.read_fault_left = -1
-                    sim.faults["source_eio"] += 1
-                    sim.log.add("read", "fault:EIO", name, n)
-                    raise OSError(errno.EIO, "simulated EIO")
+                    sim.faults["source_" + fs.read_errno.lower()] += 1
+                    sim.log.add("read", "fault:" + fs.read_errno, name, n)
+                    raise OSError(getattr(errno, fs.read_errno), "simulated " + fs.read_errno)
                 if fs.read_fault_left > 0:
                     fs.read_fault_left -= 1
                 fs.lines_read += 1
@@ -405,9 +441,9 @@ class _Writer(object):
         fs = self.fs
         if fs.write_fault_left == 0:
             fs.write_fault_left = -1
-            fs.sim.faults["sink_enospc"] += 1
-            fs.sim.log.add("write", "fault:ENOSPC", fs.writes)
-            raise OSError(errno.ENOSPC, "simulated ENOSPC")
+            fs.sim.faults["sink_" + fs.write_errno.lower()] += 1
+            fs.sim.log.add("write", "fault:" + fs.write_errno, fs.writes)
+            raise OSError(getattr(errno, fs.write_errno), "simulated " + fs.write_errno)
         if fs.write_fault_left > 0:
             fs.write_fault_left -= 1
         fs.writes += 1
@@ -446,13 +482,25 @@ class SimFS(object):
         self._arrivals = 0
         self.sim = sim
         self.read_fault_left = -1      # n >= 0: fail when n more lines have been delivered
+        self.read_errno = "EIO"
+        self.read_open_fault = None    # (k, errno name): the k-th open for reading from now fails
         self.write_fault_left = -1
+        self.write_errno = "ENOSPC"
         self.open_fault = None         # "w" -> EACCES on next open for writing
         self.lines_read = 0
         self.writes = 0
         self.append_opens = 0
 
     def open_for_read(self, path, mode="r", *a, **k):
+        if self.read_open_fault is not None:
+            left, name = self.read_open_fault
+            if left == 0:
+                self.read_open_fault = None
+                self.sim.faults["source_open_" + name.lower()] += 1
+                self.sim.log.add("open", "fault:" + name, os.path.basename(path))
+                exc = {"ENOENT": FileNotFoundError, "EACCES": PermissionError}.get(name, OSError)
+                raise exc(getattr(errno, name), "simulated " + name, path)
+            self.read_open_fault = (left - 1, name)
         real = builtins.open(path, mode, *a, **k)
         if "r" in mode and "b" not in mode:
             return _Reader(self, real, path)
